@@ -110,7 +110,7 @@ fn b64(data: &[u8], urlsafe: bool) -> String {
 // ---------------------------------------------------------------------------- the rig
 
 #[derive(Clone)]
-pub struct RigCfg { pub batch: u8, pub fault: u8, pub seed: Vec<u8>, pub client_stats: bool, pub level: usize, pub n_clients: usize }
+pub struct RigCfg { pub batch: u8, pub fault: u8, pub seed: Vec<u8>, pub client_stats: bool, pub level: usize, pub n_clients: usize, pub hc: bool }
 
 pub struct Sent { pub id: usize, pub sock: usize, pub bytes: Vec<u8>, pub features: Value, pub nonce: Option<Vec<u8>>, pub t_sent_ns: u128 }
 
@@ -135,6 +135,10 @@ pub struct Rig {
     pub injected_at: Rc<RefCell<Vec<(usize, Vec<u8>, u128)>>>,
     /// sleep this many milliseconds at every recv hook (slow-drain scenarios)
     pub recv_sleep_ms: Rc<std::cell::Cell<u64>>,
+    /// health-check listener port of the in-process server, connections made by the harness, planned connects
+    pub hc_port: Option<u16>,
+    pub hc_streams: Rc<RefCell<Vec<std::net::TcpStream>>>,
+    inject_tcp: Rc<RefCell<HashMap<(String, usize), usize>>>,
 }
 
 fn now_ns() -> u128 { SystemTime::now().duration_since(UNIX_EPOCH).unwrap().as_nanos() }
@@ -160,6 +164,8 @@ impl Rig {
         mc.seed = cfg.seed.clone();
         mc.client_stats = cfg.client_stats;
         mc.num_workers = 1;
+        let hc_port = if cfg.hc { Some(std::net::TcpListener::bind("127.0.0.1:0").map_err(|e| e.to_string())?.local_addr().unwrap().port()) } else { None };
+        mc.health_check_port = hc_port;
         let queue = Arc::new(StatsQueue::new(4));
         let server = guarded(|| Server::new(&mc, sock, queue)).map_err(|p| format!("Server::new panicked: {}", p))?;
         let announced_key = server.get_public_key().to_string();
@@ -179,7 +185,8 @@ impl Rig {
         let counts: Rc<RefCell<HashMap<String, usize>>> = Rc::new(RefCell::new(HashMap::new()));
         let recv_count = Rc::new(RefCell::new(0usize));
         let rig = Rig { secrets: Secrets::new(&cfg.seed), cfg, server: Some(server), events: Events::with_capacity(1024), addr, clients, ltk_pub, srv,
-            hooks, inject, counts, recv_count, root_ids: HashMap::new(), key_ids: HashMap::new(), announced_key, drifted: 0, injected_at: Rc::new(RefCell::new(Vec::new())), recv_sleep_ms: Rc::new(std::cell::Cell::new(0)) };
+            hooks, inject, counts, recv_count, root_ids: HashMap::new(), key_ids: HashMap::new(), announced_key, drifted: 0, injected_at: Rc::new(RefCell::new(Vec::new())), recv_sleep_ms: Rc::new(std::cell::Cell::new(0)),
+            hc_port, hc_streams: Rc::new(RefCell::new(Vec::new())), inject_tcp: Rc::new(RefCell::new(HashMap::new())) };
         rig.install_tracer();
         Ok(rig)
     }
@@ -191,6 +198,9 @@ impl Rig {
         let counts = self.counts.clone();
         let injected_at = self.injected_at.clone();
         let recv_sleep = self.recv_sleep_ms.clone();
+        let inject_tcp = self.inject_tcp.clone();
+        let hc_streams = self.hc_streams.clone();
+        let hc_port = self.hc_port;
         let socks: Vec<UdpSocket> = self.clients.iter().map(|c| c.try_clone().unwrap()).collect();
         let addr = self.addr;
         verif::set_tracer(Some(Box::new(move |e: &verif::Event| {
@@ -202,6 +212,9 @@ impl Rig {
                     injected_at.borrow_mut().push((s, bytes[..bytes.len().min(48)].to_vec(), now_ns()));
                     let _ = socks[s].send_to(&bytes, addr);
                 }
+            }
+            if let Some(k) = inject_tcp.borrow_mut().remove(&(e.name.to_string(), n)) {
+                if let Some(p) = hc_port { for _ in 0..k { if let Ok(s) = std::net::TcpStream::connect(("127.0.0.1", p)) { hc_streams.borrow_mut().push(s); } } }
             }
             hooks.borrow_mut().push(e.clone());
         })));
@@ -267,6 +280,48 @@ impl Rig {
             }
         }
         0
+    }
+
+    /// make `k` TCP connections to the health-check port now
+    pub fn hc_connect(&self, k: usize) {
+        if let Some(p) = self.hc_port { for _ in 0..k { if let Ok(s) = std::net::TcpStream::connect(("127.0.0.1", p)) { self.hc_streams.borrow_mut().push(s); } } }
+    }
+    /// ... or at the n-th occurrence of a hook event during the next pumping
+    pub fn plan_hc_connect_at(&self, hook: &str, n: usize, k: usize) { *self.inject_tcp.borrow_mut().entry((hook.to_string(), n)).or_insert(0) += k; }
+
+    /// let the worker run until it is idle (one poll timed out without any hook activity); returns panic message
+    pub fn pump_until_idle(&mut self) -> Option<String> {
+        self.counts.borrow_mut().clear();
+        loop {
+            let before = self.hooks.borrow().len();
+            let server = self.server.as_mut()?;
+            let events = &mut self.events;
+            if let Err(p) = guarded(|| server.process_events(events)) { return Some(p); }
+            let new: usize = self.hooks.borrow()[before..].iter().filter(|e| e.name != "poll" && e.name != "pe_return").count();
+            if new == 0 {
+                // connects planned at hook points that never came up are made now, then one more pass
+                let pending: usize = self.inject_tcp.borrow_mut().drain().map(|(_, k)| k).sum();
+                if pending > 0 { self.drifted += pending; self.hc_connect(pending); continue; }
+                return None;
+            }
+        }
+    }
+
+    /// read what the health-check connections received; returns (connections, answered with exactly the fixed 200 response)
+    pub fn hc_collect(&self) -> (usize, usize) {
+        use std::io::Read;
+        let expect = b"HTTP/1.1 200 OK\nContent-Length: 0\nConnection: close\n\n";
+        let streams: Vec<std::net::TcpStream> = self.hc_streams.borrow_mut().drain(..).collect();
+        let n = streams.len();
+        let mut ok = 0;
+        for mut s in streams {
+            let _ = s.set_read_timeout(Some(std::time::Duration::from_millis(30)));
+            let mut text = Vec::new();
+            let mut buf = [0u8; 128];
+            loop { match s.read(&mut buf) { Ok(0) => break, Ok(k) => text.extend_from_slice(&buf[..k]), Err(_) => break } }
+            if text == expect { ok += 1; }
+        }
+        (n, ok)
     }
 
     pub fn take_hooks(&self) -> Vec<verif::Event> { std::mem::take(&mut *self.hooks.borrow_mut()) }
